@@ -9,7 +9,12 @@ reaches the state of an uninterrupted twin, and neither the re-run nor what a us
 command (`recheck` with another method, `recheck --force`) destroys bytes that exist nowhere else.
 Sources of `move_to_cache`: regular files (rename) AND symbolic links / files on another file system (data copy to a hidden
 temporary name, then rename), the copy with and without the kernel's copy offload (kill points inside the copy).
-Translator: lib/c07_extract.py (destinations of the writing calls of `move_to_cache` -> Gen/MoveToCache.lean).
+Store saves: a command saves its stores one file after the other; the signature of a divergence after a kill between two
+saves names the command family and WHICH stores were saved (`saved`), so that every unsafe (command, saved set) is its own
+known finding (K3b1a-g) and any other one is reported.  Oracle (h): after kill + re-run + recheck a regular file at a path
+recorded with the copy method has the owner's write bit (C17 at C07's crash points).
+Translator: lib/c07_extract.py (destinations of the writing calls of `move_to_cache` -> Gen/MoveToCache.lean; ORDER of the
+store saves of `cmd_copy` -> Gen/CopyStores.lean, theorem C07_copy_store_order_prefix_safe).
 """
 import os, re, shutil, subprocess, json, hashlib
 from concurrent.futures import ThreadPoolExecutor
@@ -114,6 +119,35 @@ def inventory(sb):
     return inv, o
 
 
+def store_files(sb):
+    """the event files of the stores: {'<store directory>/<file>.json'} (hidden temporary files are not event files)"""
+    out = set()
+    d = sb.path('.xvc/store')
+    for st in (os.listdir(d) if os.path.isdir(d) else []):
+        sd = os.path.join(d, st)
+        if os.path.isdir(sd):
+            out |= {f'{st}/{f}' for f in os.listdir(sd) if f.endswith('.json') and not f.startswith('.')}
+    return out
+
+
+def saved_stores(before, after):
+    """WHICH stores the killed command saved (sorted names): the store directories that hold an event file that was not
+    there before the command.  Every command saves its stores in one fixed order, so the set names the prefix."""
+    return sorted({x.split('/')[0] for x in after - before})
+
+
+def copies_not_writable(o):
+    """(h) C17 at C07's crash points: a tracked path whose recorded recheck method is `copy` and that is in the workspace
+    is a regular file of its own that its owner can write (not a link, not a read-only file)"""
+    bad = []
+    for p, r in o.recs.items():
+        if r.get('method') != 'copy' or p not in o.ws: continue
+        kind = rc.entry_kind(o, p)[0]
+        if kind not in ('copy', 'dir', 'directory'):
+            bad.append((p, kind))
+    return bad
+
+
 def canon(o, table):
     """observable state for the convergence comparison: per path kind+bytes, records (current digest, method), object set"""
     ws = {p: (rc.entry_kind(o, p)[0], rt(o, p)) for p in o.ws}
@@ -162,6 +196,8 @@ COMMANDS = [
     ('untrack-unshared', ['file', 'untrack', 'u.txt'], ['u.txt']),
     ('recheck-copy', ['file', 'recheck', '--no-parallel', '--recheck-method', 'copy', 'u.txt'], ['u.txt']),
     ('copy', ['file', 'copy', 'd/b.bin', 'd/b2.bin'], ['d/b.bin', 'd/b2.bin']),
+    # the destination takes another recheck method than the source has: the copy is materialised by copy_via_temp_file
+    ('copy-as-copy', ['file', 'copy', '--recheck-method', 'copy', 'c.txt', 'd/c2.txt'], ['c.txt', 'd/c2.txt']),
     ('move', ['file', 'move', 'd/b.bin', 'e/moved.bin'], ['e/moved.bin']),
     ('move-symlink', ['file', 'move', '--recheck-method', 'symlink', 'd/b.bin', 'e/moved.bin'], ['e/moved.bin']),
     ('remove', ['file', 'remove', '--from-cache', '--all-versions', 'd/b.bin'], ['d/b.bin']),
@@ -181,7 +217,7 @@ COMMANDS = [
 
 
 QUICK = ('track-new', 'carry-in', 'recheck-method', 'track-hardlink', 'untrack-unshared', 'recheck-copy', 'bring-xdev',
-         'track-extlink', 'carry-in-symlink-tob', 'track-extlink-rw', 'carry-in-symlink-tob-rw')
+         'track-extlink', 'track-extlink-rw', 'carry-in-symlink-tob-rw', 'copy', 'copy-as-copy')
 # commands whose source is a symbolic link / a file on another file system: the reference run MUST contain a data-copy
 # call whose destination is below the cache (otherwise the kill-point search does not reach the region it is there for)
 COPIES_INTO_CACHE = ('track-extlink', 'carry-in-symlink-tob', 'track-extlink-rw', 'carry-in-symlink-tob-rw', 'bring-xdev', 'bring-xdev-rw')
@@ -193,7 +229,7 @@ def no_offload(cname):
 
 def sig_cmd(cname):
     """command family for the signatures of known findings"""
-    for fam in ('carry-in', 'track', 'recheck', 'move', 'untrack'):
+    for fam in ('carry-in', 'track', 'recheck', 'move', 'untrack', 'copy', 'bring'):
         if cname.startswith(fam): return fam
     return cname
 
@@ -292,10 +328,12 @@ def run_one(chk, xvc, base, cname, argv, targets, k, trace_ref, table):
     arg2 = prepare(sb, cname) or argv
     inv0, o0 = inventory(sb)
     objs0 = {rel: ob['bytes'] for rel, ob in o0.cache.items()}
+    stores0 = store_files(sb)
     tf = os.path.join(sb.base, 'killed.trace')
     cmd = ['strace', '-f', '-qq', '-o', tf, '-e', f'trace={SYSCALLS}'] + (NO_OFFLOAD if no_offload(cname) else []) + \
           ['-e', f'inject={sc_name}:signal=KILL:when={sc_j}', xvc, '--skip-git'] + arg2
     rc_, out, err = sb.run(cmd, timeout=120)
+    saved = saved_stores(stores0, store_files(sb))
     per_k, last_call = parse_trace_ex(tf, sb.root) if os.path.exists(tf) else ({}, None)
     done = [x for l in per_k.values() for x in l]
     # strace logs the call on which the signal was injected as its last line of that thread: it did not execute
@@ -317,7 +355,11 @@ def run_one(chk, xvc, base, cname, argv, targets, k, trace_ref, table):
     phase = {'stores': frac(lambda x: x[0].startswith('rename') and x[1] == 'store-file'),
              'cache_in': frac(lambda x: x[0].startswith('rename') and x[1] == 'cache-object'),
              'cache_out': frac(lambda x: x[0].startswith('unlink') and x[1] == 'cache-object'),
-             'workspace': frac(lambda x: x[1] == 'workspace')}
+             'workspace': frac(lambda x: x[1] == 'workspace'),
+             # WHICH stores were saved at the kill (sorted names; read from the store directories, not from the trace)
+             'saved': saved}
+    if phase['stores'] == 'partial':
+        chk.count(f"partial-store-saves:{sig_cmd(cname)}:{'+'.join(saved)}")
     chk.count(f'killed-at:{at[0]}:{at[1]}')
     where = f"{cname} killed at call {sc_name}#{sc_j} (before {at[0]} on {at[1]}; done: {phase})"
     # (a) later commands load the repository
@@ -356,6 +398,15 @@ def run_one(chk, xvc, base, cname, argv, targets, k, trace_ref, table):
         for msg, sig in rc.o1_content_addressed([{'i': sc_j, 'cmd': {'op': cname, 'targets': targets}, 'rc': r2, 'pre': None, 'post': ob2}], {}, []):
             if sig['kind'] in ('address-mismatch', 'object-is-symlink'):
                 fails.append((f'{where}, then re-run (rc={r2}) and `xvc file recheck`: ' + msg, dict(sig, kind=sig['kind'] + '-after-rerun', at=f'{at[0]}:{at[1]}')))
+        # (h) C17 at C07's crash points: a path recorded with the copy method that is a regular file of its own after the
+        # re-run + recheck can be written by its owner (a kill between "the copy appears at the path" and "it is made
+        # writable" leaves a read-only file that no later recheck touches: same content, same method).  Links at a copy
+        # path are the business of (e) (entry kinds are compared with the twin).
+        for p_, kind in copies_not_writable(ob2):
+            if kind == 'readonly-file':
+                fails.append((f'{where}, then re-run (rc={r2}) and `xvc file recheck`: {p_} is recorded with the copy method and is a regular file WITHOUT the '
+                              f'user-write bit: a copy its owner cannot edit, and recheck leaves it as it is',
+                              {'kind': 'copy-not-writable-after-rerun', 'cmd': sig_cmd(cname), 'at': f'{at[0]}:{at[1]}'}))
         # (f) the re-run and the recheck destroy nothing either: a partial file left by the killed run must not be
         # taken for the user's file while the only complete copy is deleted
         inv2, _ = inventory(sb)
@@ -383,18 +434,30 @@ def run(chk):
     try:
         c07_extract.run(chk)
     except (RuntimeError, OSError, ValueError, IndexError) as ex:
-        chk.proof['broken'].append({'stage': 'translator', 'errors': [f'lib/c07_extract.py: {ex}'], 'package': 'XvcRepo', 'theorems': ['C07_moveToCache_address_written_by_rename_only']})
-    model = chk.lean('XvcRepo', 'XvcRepo.Props.C07', exe=None, extra_modules=['XvcRepo.Model', 'XvcRepo.Effects', 'XvcRepo.Gen.MoveToCache'], build_targets=['XvcRepo.Props.C07'])
+        chk.proof['broken'].append({'stage': 'translator', 'errors': [f'lib/c07_extract.py: {ex}'], 'package': 'XvcRepo', 'theorems': ['C07_moveToCache_address_written_by_rename_only', 'C07_copy_store_order_prefix_safe']})
+    model = chk.lean('XvcRepo', 'XvcRepo.Props.C07', exe=None, extra_modules=['XvcRepo.Model', 'XvcRepo.Effects', 'XvcRepo.Gen.MoveToCache', 'XvcRepo.Gen.CopyStores'], build_targets=['XvcRepo.Props.C07'])
     xvc = chk.build_xvc()
-    chk.trusted_base += ['translator lib/c07_extract.py (anchored extraction of the calls of `move_to_cache` that create or fill a file, with their destination argument: Gen/MoveToCache.lean)',
+    chk.trusted_base += ['translator lib/c07_extract.py (anchored extraction of the calls of `move_to_cache` that create or fill a file, with their destination argument: Gen/MoveToCache.lean; '
+                         'of the with_store_mut / with_r11store_mut / save_store calls of `cmd_copy` ordered by where each call SAVES (end of its closure): Gen/CopyStores.lean)',
                          'strace error injection (copy_file_range / sendfile -> ENOSYS) stands for a kernel or file system without copy offload',
                          'crash harness lib/c07.py: strace -f -e inject=<mutating calls>:signal=KILL:when=k (ptrace), cp -a copies of a prepared repository with history',
                          'modelled, not verified: atomicity of single system calls (rename, link, symlink, unlink, mkdir, chmod), ordering visibility, durability (power loss / fsync are outside "killed"), partial write() of a single call, git\'s own commit step (runs with --skip-git; the Git side is C15)']
     chk.assumptions += ['the kill arrives between system calls of the worker thread (serial mode: --no-parallel)',
                         'the local storage used by `bring` is not modified by the crash (read side only)']
+    # for trying out a proposed replacement of known-finding entries before the shared file is edited:
+    # C07_DROP_KNOWN=<id,id>  ignores these entries;  C07_EXTRA_KNOWN=<json file with {"findings": [...]}>  adds entries;
+    # C07_PROBE_STORES=1  all commands, kill points at `rename` only (every boundary between two store saves is one)
+    drop = [x for x in os.environ.get('C07_DROP_KNOWN', '').split(',') if x]
+    if drop:
+        chk.known_findings = [f for f in chk.known_findings if f['id'] not in drop]
+        chk.notes.append(f'known findings ignored for this run (C07_DROP_KNOWN): {drop}')
+    if os.environ.get('C07_EXTRA_KNOWN'):
+        chk.known_findings += [f for f in json.load(open(os.environ['C07_EXTRA_KNOWN']))['findings'] if f['property'] == 'C07']
+        chk.notes.append('known findings added for this run (C07_EXTRA_KNOWN)')
+    probe = bool(os.environ.get('C07_PROBE_STORES'))
     base = setup_repo(chk, xvc, 'base')
     table = Table()
-    names = [c for c in COMMANDS if c[0] in QUICK] if quick else COMMANDS
+    names = [c for c in COMMANDS if c[0] in QUICK] if quick and not probe else COMMANDS
     total = 0
     for cname, argv, targets in names:
         # reference run: trace + uninterrupted twin
@@ -436,7 +499,7 @@ def run(chk):
         if getattr(ref, 'xdev_tmp', None):
             shutil.rmtree(ref.xdev_tmp, ignore_errors=True)
         ref.cleanup()
-        ks = [(sc, j) for sc in sorted(per_call) for j in range(1, per_call[sc] + 1)]
+        ks = [(sc, j) for sc in sorted(per_call) for j in range(1, per_call[sc] + 1) if not probe or sc == 'rename']
         n = len(ks)
         with ThreadPoolExecutor(max_workers=12) as ex:
             results = list(ex.map(lambda k: run_one(chk, xvc, base, cname, argv, targets, k, worker, table), ks))
@@ -472,7 +535,7 @@ def run(chk):
                          'the reference run of these commands must contain a data-copy call to a file below .xvc/<algo>/ (else the tie is broken); '
                          'each command is killed (one process per kill point) at the j-th invocation of system call s, for every mutating call name s other than the opens and every j up to the '
                          'largest count a thread of the reference run reached (strace keeps one injection counter per call name and thread), i.e. just before every mutating call of the '
-                         'thread that gets there first; then the seven oracles are evaluated (loads, old versions intact, workspace bytes survive - read THROUGH links, also those that leave the repository -, '
+                         'thread that gets there first; the signature of a re-run divergence names the command family and the set of stores the killed run saved (read from .xvc/store/*); then the eight oracles are evaluated (after kill + re-run + recheck a regular file at a copy-method path has the owner\'s write bit; loads, old versions intact, workspace bytes survive - read THROUGH links, also those that leave the repository -, '
                          'no partial object: every file at an address-shaped path below the cache re-hashes (lib/hashref.py) to its address, after the kill AND after the re-run, re-run + recheck '
                          'converges to the uninterrupted twin, the re-run destroys nothing either, and neither do the follow-up commands `recheck --recheck-method symlink|hardlink|copy` '
                          'and `recheck --force` on the targets of the killed command, run both on the killed state and after the re-run); '
